@@ -378,8 +378,12 @@ def for_in(
         sequences.
     """
 
-    mapped: Iterable[Observable[_T2]] = map(mapper, values)
-    return concat_with_iterable(mapped)
+    def factory(_: abc.SchedulerBase) -> Observable[_T2]:
+        # map() is a one-shot iterator: build it anew for every subscription
+        mapped: Iterable[Observable[_T2]] = map(mapper, values)
+        return concat_with_iterable(mapped)
+
+    return defer(factory)
 
 
 @overload
